@@ -7,8 +7,8 @@ cp DEMO/zz_demo_*_test.go $pkg/ 2>/dev/null
 echo "== base of worktree: $(git log --oneline -1)"
 echo "== with change"
 timeout 900 go test -modfile=/tmp/mutkit/repo.mod -count=1 -vet=off -run 'Demo' ./$pkg 2>&1 | tail -8
-git stash -q
+git diff > /tmp/confirm_$id.diff; git checkout -q -- .   # not git stash: the stash is shared by all worktrees
 echo "== without change"
 timeout 900 go test -modfile=/tmp/mutkit/repo.mod -count=1 -vet=off -run 'Demo' ./$pkg 2>&1 | tail -4
-git stash pop -q
+git apply /tmp/confirm_$id.diff
 git status --short | head
